@@ -8,7 +8,7 @@ Import RecordSetNotations.
     and the sender count matches the scheduler's handle. *)
 Definition Qd (s : state) : Prop :=
   senders (done s) = (if s_tx s then 1 else 0) /\
-  (woken s = true \/ (buf (done s) = [] /\ rx_waker (done s) = true)).
+  (woken s = true \/ (buf (done s) = [] /\ rx_waker (done s) = true /\ s_tx s = true)).
 
 Lemma Qd_same s s' :
   done s' = done s -> s_tx s' = s_tx s -> woken s' = woken s -> Qd s -> Qd s'.
@@ -19,9 +19,10 @@ Proof. unfold set_panic. destruct (panic s); [auto|]. apply Qd_same; reflexivity
 
 Lemma Qd_take_s_tx s : Qd s -> Qd (take_s_tx s).
 Proof.
-  intros [Hs Hq]. unfold take_s_tx. destruct (s_tx s) eqn:Htx; [|split; [rewrite Htx; exact Hs | exact Hq]].
+  intros [Hs Hq]. unfold take_s_tx. destruct (s_tx s) eqn:Htx;
+    [|split; [rewrite Htx; exact Hs | destruct Hq as [Hq|[_ [_ Hq]]]; [left; exact Hq | congruence]]].
   unfold drop_sender. rewrite Hs. unfold Qd. simpl.
-  split; [reflexivity|]. destruct Hq as [Hw|[Hb Hwk]].
+  split; [reflexivity|]. destruct Hq as [Hw|[Hb [Hwk _]]].
   - left. rewrite Hw. reflexivity.
   - left. rewrite Hwk. apply orb_true_r.
 Qed.
@@ -33,7 +34,7 @@ Proof.
     unfold Qd. simpl. split; [rewrite Hse; exact Hs|]. left.
     unfold try_send in Hts. rewrite Ho' in Hts. simpl in Hts.
     destruct (cap (done s) <=? length (buf (done s))); [discriminate|]. inversion Hts; subst.
-    destruct Hq as [Hw|[_ Hwk]]; [rewrite Hw; reflexivity | rewrite Hwk; apply orb_true_r].
+    destruct Hq as [Hw|[_ [Hwk _]]]; [rewrite Hw; reflexivity | rewrite Hwk; apply orb_true_r].
   - apply Qd_set_panic. split; assumption.
   - split; assumption.
 Qed.
